@@ -368,6 +368,31 @@ class Table:
                     (in_.args[1].lo is None or in_.args[1].lo.const() == 0) and in_.args[1].hi is not None and \
                     in_.args[1].hi.const() is not None and args[1].const() < in_.args[1].hi.const():
                 return self.atom('idx', (in_.args[0], args[1]))
+        # a record (NamedTuple class of the analysed tree): the field of a freshly built record is the value it was built
+        # with; a field of C._make(row) is the item of row at the field's position
+        if head in ('getattr', 'idx') and len(args) == 2 and isinstance(args[0], RF) and args[0].single_atom() is not None and \
+                getattr(self, 'records', None) is not None:
+            ca_ = self.atoms[args[0].single_atom()]
+            if ca_.head in ('call', 'mcall') and ca_.extra and isinstance(ca_.extra[0], str) and ca_.extra[0].startswith('fn:'):
+                cname = ca_.extra[0][3:]
+                made = cname.endswith('._make')
+                flds = self.records(cname[:-6] if made else cname)
+                k_ = None
+                if flds is not None:
+                    if head == 'getattr' and args[1] in flds:
+                        k_ = flds.index(args[1])
+                    elif head == 'idx' and isinstance(args[1], RF) and args[1].const() is not None and \
+                            args[1].const().denominator == 1 and -len(flds) <= args[1].const() < len(flds):
+                        k_ = int(args[1].const()) % len(flds)
+                if k_ is not None and made and len(ca_.args) == 1 and isinstance(ca_.args[0], RF):
+                    return self.atom('idx', (ca_.args[0], self.const(k_)))
+                if k_ is not None and not made:
+                    kwn_ = list(ca_.extra[1:])
+                    npos_ = len(ca_.args) - len(kwn_)
+                    if k_ < npos_ and isinstance(ca_.args[k_], RF):
+                        return ca_.args[k_]
+                    if flds[k_] in kwn_ and isinstance(ca_.args[npos_ + kwn_.index(flds[k_])], RF):
+                        return ca_.args[npos_ + kwn_.index(flds[k_])]
         # the fields of inspect.getfullargspec(...) by name are its items by position
         if head == 'getattr' and len(args) == 2 and isinstance(args[0], RF) and args[1] in _FULLARGSPEC and \
                 args[0].single_atom() is not None:
@@ -873,8 +898,11 @@ class Conv:
             return t.atom('bool', tuple(self.expr(v) for v in n.values),
                           extra=type(n.op).__name__)
         if isinstance(n, ast.IfExp):
-            return t.atom('guard', (self.expr(n.test), self.expr(n.body),
-                                    self.expr(n.orelse)))
+            tst, bdy, els = self.expr(n.test), self.expr(n.body), self.expr(n.orelse)
+            if t.equal(tst, bdy):
+                # `x if x else y` is `x or y`
+                return t.atom('bool', (tst, els), extra='Or')
+            return t.atom('guard', (tst, bdy, els))
         if isinstance(n, (ast.Tuple, ast.List)):
             return t.atom('tuple', tuple(self.expr(e) for e in n.elts))
         if isinstance(n, ast.Set) and not any(isinstance(e, ast.Starred) for e in n.elts):
@@ -977,17 +1005,28 @@ class Conv:
             if isinstance(x, (ast.Tuple, ast.List)):
                 return '(' + ','.join(shape(e) for e in x.elts) + ')'
             raise ValueError
-        # a list comprehension over a literal sequence is the literal of its items: [f(x) for x in (a, b)] is [f(a), f(b)]
-        if isinstance(n, (ast.ListComp, ast.GeneratorExp)) and len(n.generators) == 1 and not n.generators[0].ifs and \
-                not n.generators[0].is_async and isinstance(n.generators[0].target, ast.Name):
-            it0 = self._iterand(self.expr(n.generators[0].iter))
-            a0 = it0.single_atom()
-            if a0 is not None and t.atoms[a0].head == 'tuple' and all(isinstance(x, RF) for x in t.atoms[a0].args):
-                items = []
+        # a list comprehension over literal sequences is the literal of its items: [f(x) for x in (a, b)] is [f(a), f(b)],
+        # [f(x, y) for x in (a, b) for y in (c, d)] is [f(a, c), f(a, d), f(b, c), f(b, d)]
+        if isinstance(n, (ast.ListComp, ast.GeneratorExp)) and \
+                all(not g.ifs and not g.is_async and isinstance(g.target, ast.Name) for g in n.generators):
+            def expand(conv, gens_):
+                if not gens_:
+                    return [conv.expr(n.elt)]
+                it0 = conv._iterand(conv.expr(gens_[0].iter))
+                a0 = it0.single_atom()
+                if a0 is None or t.atoms[a0].head != 'tuple' or not all(isinstance(x, RF) for x in t.atoms[a0].args):
+                    return None
+                out_ = []
                 for x in t.atoms[a0].args:
-                    c2 = self.fork()
-                    c2.env[n.generators[0].target.id] = x
-                    items.append(c2.expr(n.elt))
+                    c2 = conv.fork()
+                    c2.env[gens_[0].target.id] = x
+                    sub_ = expand(c2, gens_[1:])
+                    if sub_ is None:
+                        return None
+                    out_.extend(sub_)
+                return out_
+            items = expand(self, list(n.generators))
+            if items is not None and len(items) <= 64:
                 return t.atom('tuple', tuple(items))
         gens = list(n.generators)
         for gi, g in enumerate(gens):
@@ -1006,10 +1045,40 @@ class Conv:
                     ast.copy_location(g2, g.target)
                     ast.fix_missing_locations(g2)
                     gens[gi] = g2
-        for g in gens:
+        for gi, g in enumerate(gens):
             if g.is_async:
                 return None
+            if gi > 0 and isinstance(g.iter, (ast.Tuple, ast.List)) and len(g.iter.elts) == 1 and \
+                    not isinstance(g.iter.elts[0], ast.Starred):
+                # `for a, b in (x,)` inside a comprehension only names the parts of x: a binding, not a loop; its
+                # conditions are conditions of the enclosing generator
+                xv = c.expr(g.iter.elts[0])
+                tg_ = g.target
+                if isinstance(tg_, ast.Name):
+                    c.env[tg_.id] = xv
+                elif isinstance(tg_, (ast.Tuple, ast.List)) and all(isinstance(e, ast.Name) for e in tg_.elts):
+                    for j_, e in enumerate(tg_.elts):
+                        c.env[e.id] = t.atom('idx', (xv, t.const(j_)))
+                else:
+                    return None
+                prev = t.atoms[parts[-1].single_atom()]
+                parts[-1] = t.atom('tuple', tuple(prev.args) + tuple(c.expr(x) for x in g.ifs))
+                continue
             it = self._iterand(c.expr(g.iter))
+            ia_ = it.single_atom()
+            if ia_ is not None and t.atoms[ia_].head == 'comp' and t.atoms[ia_].extra[0] == 'ListComp' and \
+                    len(t.atoms[ia_].args) == 3 and isinstance(g.target, ast.Name) and len(t.atoms[ia_].extra) == 2 and \
+                    t.atoms[ia_].extra[1] == '_':
+                # a comprehension over a comprehension / map(...): [E(p) for p in (F(x) for x in X)] is
+                # [E(F(x)) for x in X]  (the inner bound variable has the name this depth gives: %b<k>)
+                in_ = t.atoms[ia_]
+                c.env[g.target.id] = in_.args[0]
+                k += 1
+                shapes.append('_')
+                c._bd = k
+                parts.append(in_.args[1])
+                parts.append(t.atom('tuple', tuple(t.atoms[in_.args[2].single_atom()].args) + tuple(c.expr(x) for x in g.ifs)))
+                continue
             try:
                 shapes.append(shape(g.target))
             except ValueError:
@@ -1185,6 +1254,12 @@ class Conv:
             inl = self.on_call(n, name, recv, args, kw, recv_rf)
             if inl is not None:
                 return inl
+        if recv_rf is not None and name is not None and getattr(t, 'records', None) is not None:
+            # a callable taken from a record field that is an item of a row: _Row._make(row).fget() is row[2]()
+            cand_ = t.atom('getattr', (recv_rf, name))
+            ca2_ = cand_.single_atom()
+            if ca2_ is not None and t.atoms[ca2_].head == 'idx':
+                return t.atom('callexpr', tuple([cand_] + args + kwv), extra=kwn or None)
         if name is None or (isinstance(n.func, ast.Name) and n.func.id in self.env and self._alias_target(n.func) is None):
             # call through an expression / a local bound to a value
             return t.atom('callexpr', tuple([self.expr(n.func)] + args + kwv),
